@@ -21,7 +21,7 @@ def _validate_chunk(ctx, path, label, max_failures):
     sub = vlib.Ctx(ctx.prop, ctx.tier, ctx.seed)
     try:
         vlib.validate_traces(sub, path, TRACE, TCFG, DEPS, label,
-                             classify=classify, timeout=3000, max_failures=max_failures)
+                             classify=classify, timeout=6000, max_failures=max_failures)
         sub.error = None
     except Exception as e:  # re-raised by the caller, in chunk order
         sub.error = e
@@ -40,7 +40,7 @@ def _merge(ctx, sub):
     sub.cleanup()
 
 
-def _drive(ctx, binary, test, label, env, timeout=1800, max_failures=3):
+def _drive(ctx, binary, test, label, env, timeout=3600, max_failures=3):
     """Run one case generator and validate every chunk it wrote."""
     from concurrent.futures import ThreadPoolExecutor
     out = ctx.sub(label)
